@@ -13,6 +13,7 @@
 -/
 import BufrModel.Lemmas.CompilerWalk
 import BufrModel.Lemmas.CompilerDump
+import BufrModel.Lemmas.CompilerCache
 namespace Bufr
 open Bufr.C08 Bufr.C08W Bufr.C08D
 
@@ -130,6 +131,27 @@ theorem C08_encodeData_reload (T : Tables) (hT : TablesOk T) (ids : List Nat) (t
   rw [C08_load_dump_compile T hT ids t hb prog hc]
   exact C08_encodeDataC_eq t prog hs hc compressed valss
 
+
+/-! ### through the cache -/
+
+/-- FULL.  End to end through the cache: for every history of template requests and every cache limit,
+    every program handed out (freshly compiled or served from the cache) decodes and encodes exactly like
+    its own template, provided the requested templates are `scopeClosed`. -/
+theorem C08_cached_program_eq_template {κ : Type} [DecidableEq κ] (tmplOf : κ → List Desc) (cacheMax : Nat)
+    (hist : List κ) (hs : ∀ k ∈ hist, scopeClosed (tmplOf k) = true) :
+    ∀ kr ∈ hist.zip (runCache (fun k => compile (tmplOf k)) cacheMax hist {}).1, ∀ prog, kr.2 = .ok prog →
+      (∀ compressed n bits, decodeDataC prog compressed n bits = decodeData (tmplOf kr.1) compressed n bits) ∧
+      (∀ compressed valss, encodeDataC prog compressed valss = encodeData (tmplOf kr.1) compressed valss) := by
+  intro kr hkr prog hp
+  rw [(runCache_results (fun k => compile (tmplOf k)) cacheMax hist {} (by intro p hp; cases hp)).1] at hkr
+  have h1 := mem_zip_map _ _ kr hkr
+  have h2 : kr.1 ∈ hist := (List.of_mem_zip hkr).1
+  rw [hp] at h1
+  exact ⟨fun c n b => C08_decodeDataC_eq _ prog (hs _ h2) h1.symm c n b,
+         fun c v => C08_encodeDataC_eq _ prog (hs _ h2) h1.symm c v⟩
+
+
+example : (List.zip [1, 2, 1] (runCache (fun k : Nat => k + 1) 1 [1, 2, 1] {}).1) = [(1, 2), (2, 3), (1, 2)] := by decide
 
 /-! ### non-vacuity: a concrete template with 201, nested replication, a bitmap and marker operators -/
 end Bufr
